@@ -98,7 +98,14 @@ def should_shrink(case, io, mo):
     return not (isinstance(io, dict) and io.get("ended") == "timeout")
 
 
+def hs_ttcfg_crash(case, io):
+    return case["grammar"]["kind"] == "size" and case["enum"] in ("hs", "hs_bucket") and isinstance(io, dict) \
+        and str(io.get("crash", "")).startswith("KeyError") and "heap_search" in str(io.get("tb", ""))
+
+
 def classify(case, io, mo):
+    if hs_ttcfg_crash(case, io):
+        return "c02_heap_search_ttcfg_incomplete"
     if case["enum"] == "bs" and case["weights"]["kind"] != "uniform" and isinstance(io, dict) \
             and io.get("ended") == "timeout" and mo is not None and mo["nodup"] == 1 and mo["members"] == 1:
         return "c02_bee_search_blowup"
